@@ -137,10 +137,11 @@ class Node:
         hist = [e for e in table[key] if e[2] == item]
         table[key].append((w.h.loop.time(), kind, item))
         w.stats["alternation_events"] += 1
+        who = "discovery" if first == "offered" else "subscription"
         if not hist and kind != first:
-            w.fail("listener-history-does-not-begin-with-" + first, self, dict(key=key, item=item))
+            w.fail(who + "-listener-history-does-not-begin-with-" + first, self, dict(key=key, item=item))
         elif hist and hist[-1][1] == kind:
-            w.fail("listener-history-not-alternating:" + kind + "-twice", self,
+            w.fail(who + "-listener-history-not-alternating:" + kind + "-twice", self,
                    dict(key=key, item=item, history=[(e[0], e[1]) for e in hist][-6:]))
 
     def announce(self, si):
@@ -424,7 +425,145 @@ class QueueMonitor(Monitor):
                             w.fail("entry-on-the-wire-that-was-never-queued", node, dict(dst=dst, entry=sent[i]))
 
 
-MONITORS = {"reboot": RebootMonitor, "wire": WireMonitor, "queue": QueueMonitor}
+class AckMonitor(Monitor):
+    """C11 in the system: every Subscribe entry (TTL > 0) that reaches a running stack by unicast is answered, during that
+    very datagram_received call, by exactly one SubscribeAck entry queued for the sender - positive exactly when one of the
+    announced, running instances matches and declares the eventgroup (the mesh's listeners accept everything)"""
+    name = "ack"
+
+    def on_boot(self, node):
+        w = self.w
+        prot = node.prot
+        ann = prot.announcer
+        orig_q = ann.queue_send
+        orig_dg = prot.datagram_received
+        acks = []
+
+        def queue_send(entry, remote=None):
+            if int(entry.sd_type) == 7:
+                acks.append((remote, entry.service_id, entry.instance_id, entry.major_version, entry.minver_or_counter, entry.ttl))
+            return orig_q(entry, remote=remote)
+
+        def datagram_received(data, addr, multicast):
+            before = len(acks)
+            up = node.alive and node.started
+            announced = set(node.announced)
+            r = orig_dg(data, addr, multicast)
+            if multicast or not up:
+                return r
+            try:
+                msgs = refwire.parse_sd_datagram(bytes(data))
+            except refwire.RefError:
+                return r
+            want = collections.Counter()
+            optional = collections.Counter()  # a StopSubscribe nobody is responsible for may or may not be refused
+            for sd in msgs:
+                if not sd["flags"] & 0x40:
+                    continue
+                for e in sd["entries"]:
+                    if e["type"] != 6:
+                        continue
+                    egid = e["val"] & 0xFFFF
+                    pos = any(SERVICES[si][0] == e["sid"] and e["iid"] in (0xFFFF, SERVICES[si][1]) and e["maj"] in (0xFF, SERVICES[si][2])
+                              and egid in SERVICES[si][4] for si in announced)
+                    if e["ttl"] > 0:
+                        want[(addr, e["sid"], e["iid"], e["maj"], e["val"], e["ttl"] if pos else 0)] += 1
+                    elif not pos:
+                        optional[(addr, e["sid"], e["iid"], e["maj"], e["val"], 0)] += 1
+            got = collections.Counter(acks[before:])
+            w.stats["subscribes_judged"] += sum(want.values())
+            w.stats["positive_acks_expected"] += sum(n for k, n in want.items() if k[5])
+            if (want - got) or ((got - want) - optional):
+                w.fail("subscribe-acknowledgement-differs", node,
+                       dict(sender=addr, expected=sorted(want.elements()), queued=sorted(got.elements())))
+            return r
+
+        ann.queue_send = queue_send
+        prot.datagram_received = datagram_received
+
+
+class OfferLifeMonitor(Monitor):
+    """C10 in the system, at the public queue_send boundary: while an instance is stopped (its stack stopped gracefully or
+    the instance withdrawn) no offer with TTL > 0 is queued for it to anyone, and a stop after at least one offer queues
+    exactly one StopOffer"""
+    name = "offerlife"
+
+    def on_boot(self, node):
+        w = self.w
+        ann = node.prot.announcer
+        orig = ann.queue_send
+        log = []
+        node.offer_logs = getattr(node, "offer_logs", [])
+        node.offer_logs.append((node.incarnation, log))
+
+        def queue_send(entry, remote=None):
+            if int(entry.sd_type) == 1:
+                log.append((w.h.loop.time(), remote, (entry.service_id, entry.instance_id), entry.ttl))
+            return orig(entry, remote=remote)
+
+        ann.queue_send = queue_send
+
+    def finish(self):
+        w = self.w
+        for node in w.nodes:
+            for inc, log in getattr(node, "offer_logs", []):
+                life = [x for x in w.lifelog if x[1] == node.idx and x[2] == inc]
+                for si in node.spec["offers"]:
+                    s = SERVICES[si]
+                    # up/down intervals of this instance in this incarnation
+                    up, since, ivs = False, None, []
+                    stack_up, announced = False, False
+                    for t, _i, _inc, what, arg in life:
+                        if what == "boot":
+                            stack_up, announced = True, True
+                        elif what == "stop":
+                            stack_up = False
+                        elif what == "start":
+                            stack_up = True
+                        elif what == "crash":
+                            stack_up = None
+                        elif what == "unannounce" and arg == si:
+                            announced = False
+                        elif what == "announce" and arg == si:
+                            announced = True
+                        now_up = bool(stack_up) and announced
+                        if stack_up is None:
+                            if up:
+                                ivs.append((since, t, "crashed"))
+                            up = False
+                            break
+                        if now_up != up:
+                            if up:
+                                ivs.append((since, t, "stopped"))
+                            since, up = t, now_up
+                            if not up:
+                                down_since = t
+                    if up:
+                        ivs.append((since, w.t_end + 1.0, "running"))
+                    mine = [x for x in log if x[2] == (s[0], s[1])]
+                    for k, (t0, t1, how) in enumerate(ivs):
+                        nxt = ivs[k + 1][0] if k + 1 < len(ivs) else w.t_end + 1.0
+                        w.stats["offer_intervals_checked"] += 1
+                        if how != "stopped":
+                            continue
+                        if nxt - t1 <= 4 * EPS:
+                            continue  # stopped and started again within one instant: attribution of that instant's entries is open
+                        offered = [x for x in mine if t0 - 4 * RES <= x[0] <= t1 + 4 * RES and x[3] > 0 and x[1] is None]
+                        stops = [x for x in mine if t1 - 4 * RES <= x[0] < nxt - 4 * RES and x[3] == 0]
+                        late = [x for x in mine if t1 + 4 * RES < x[0] < nxt - 4 * RES and x[3] > 0]
+                        w.stats["stopped_intervals_checked"] += 1
+                        if late:
+                            w.fail("offer-with-nonzero-ttl-queued-while-the-instance-is-stopped", node,
+                                   dict(service=s[:2], stopped_at=t1, next_start=nxt, offer=late[0]))
+                        before_stop = [x for x in offered if x[0] < t1 - 4 * RES]
+                        if before_stop and len(stops) != 1:
+                            w.fail("stop-after-offering-queues-%d-stopoffers" % len(stops), node,
+                                   dict(service=s[:2], up_since=t0, stopped_at=t1, stopoffers=stops[:3]))
+                        elif len(stops) > 1:
+                            w.fail("stop-queues-%d-stopoffers" % len(stops), node, dict(service=s[:2], stopped_at=t1, stopoffers=stops[:3]))
+
+
+MONITORS = {"reboot": RebootMonitor, "wire": WireMonitor, "queue": QueueMonitor, "ack": AckMonitor, "offerlife": OfferLifeMonitor}
 
 
 # ---------------------------------------------------------------------------------------------- world
@@ -440,6 +579,7 @@ class World:
         self.crashed_incarnations = {}
         self.incarnation_end = {}
         self.t_end = 0.0
+        self.lifelog = []  # (t, node index, incarnation, what, arg)
         self.monitors = [MONITORS[m](self) for m in want if m in MONITORS]
         self.nodes = [Node(self, i, spec) for i, spec in enumerate(layout)]
 
@@ -455,6 +595,7 @@ class World:
             if k == "boot":
                 for nd in self.nodes:
                     nd.boot()
+                    self.lifelog.append((self.h.loop.time(), nd.idx, nd.incarnation, "boot", None))
                 return
             if k == "fault":
                 self.net.faults.append(a["fault"])
@@ -464,24 +605,34 @@ class World:
             if k == "stop":
                 if nd.alive and nd.started:
                     self.incarnation_end.setdefault((nd.idx, nd.incarnation), now)
+                    self.lifelog.append((now, nd.idx, nd.incarnation, "stop", None))
                 nd.graceful_stop()
             elif k == "start":
+                if nd.alive and not nd.started:
+                    self.lifelog.append((now, nd.idx, nd.incarnation, "start", None))
                 nd.graceful_start()
             elif k == "crash":
                 if nd.alive:
                     self.crashed_incarnations[(nd.idx, nd.incarnation)] = True
                     self.incarnation_end.setdefault((nd.idx, nd.incarnation), now)
+                    self.lifelog.append((now, nd.idx, nd.incarnation, "crash", None))
                 nd.crash()
             elif k == "restart":
-                nd.restart()
+                if not nd.alive:
+                    nd.restart()
+                    self.lifelog.append((now, nd.idx, nd.incarnation, "boot", None))
             elif nd.alive:
                 if k == "watch":
                     nd.watch(a["f"])
                 elif k == "unwatch":
                     nd.unwatch(a["f"])
                 elif k == "announce":
+                    if a["si"] not in nd.announced:
+                        self.lifelog.append((now, nd.idx, nd.incarnation, "announce", a["si"]))
                     nd.announce(a["si"])
                 elif k == "unannounce":
+                    if a["si"] in nd.announced:
+                        self.lifelog.append((now, nd.idx, nd.incarnation, "unannounce", a["si"]))
                     nd.unannounce(a["si"])
         except Exception as exc:  # noqa: B902
             self.raised.append((a, repr(exc)))
@@ -564,7 +715,7 @@ def random_script(rng, cfg, layout):
     return acts, t_last, descr
 
 
-def run_case(ctx, seedkey, want, replay, prefix="mesh_"):
+def run_case(ctx, seedkey, want, replay, prefix="mesh_", claim=("mesh:",)):
     """one seeded mesh scenario under the monitors in `want` (+ listeners' alternation and, with 'converge', C04's oracle)"""
     rng = random.Random(seedkey)
     cfg = random_config(rng)
@@ -592,7 +743,10 @@ def run_case(ctx, seedkey, want, replay, prefix="mesh_"):
     problems = w.h.problems()
     w.h.close()
     detail0 = dict(config=cfg, layout=[dict(nd, addr=list(nd["addr"])) for nd in layout], script=descr[:12])
-    for mech, d in w.violations[:2]:
+    for mech, d in w.violations:
+        if not mech.startswith(tuple(claim)):
+            st["reports_that_belong_to_another_property"] += 1
+            continue
         d.update(detail0)
         ctx.violation(mech, d, replay)
     for a, e in w.raised:
@@ -656,3 +810,21 @@ def converge(w, t_eval, t_quiet, B):
                 w.fail("offerer-does-not-converge:" + ("running-subscriber-not-subscribed" if want - said else "says-subscribed-but-should-not"),
                        O, dict(service=s[:4], missing=sorted(want - said), surplus=sorted(said - want), evaluated_at=t_eval,
                                quiet_since=t_quiet, bound=B))
+
+
+# ---------------------------------------------------------------------------------------------- use from a property check
+def shard_specs(cfg, tier, seed):
+    k, n = cfg.get(tier, cfg["quick"])
+    return [dict(shard=9000 + i, seed=seed, mode="mesh", n=n) for i in range(k)]
+
+
+def shard_run(spec, ctx, prop, cfg):
+    base = f"mesh/{prop}/{spec['seed']}/{spec['shard']}"
+    for i in range(spec["n"]):
+        key, nt = run_case(ctx, f"{base}/{i}", cfg["want"], dict(kind="mesh", key=f"{base}/{i}"), claim=cfg["claim"])
+        ctx.case(("mesh",) + key, nt)
+
+
+def replay_case(doc, ctx, cfg):
+    run_case(ctx, doc["key"], cfg["want"], doc, claim=cfg["claim"])
+    ctx.case(("replay",), True)
